@@ -203,6 +203,39 @@ def g_fault(rng: Any, label: str) -> dict[str, Any]:
     raise ValueError(label)
 
 
+def arm_calls(rng: Any, thorough: bool) -> list[dict[str, Any]]:
+    """Single calls that reach every arm of conn_call: the product init x header x kind x k x after x callback x
+    EXCEPTION-log position over one small program (all of it in thorough, a seeded sample in quick)."""
+    import itertools
+
+    out = []
+    for init, h, kind, k, after, mode, exc in itertools.product(
+            ("ok", "raise", "bad_return", "missing_header"), (False, True), ("producer", "exchange"), (0, 1, 3),
+            ("stop", "close", "cancel", "abandon"), ("record", "raise"), ("none", "init", "step", "step_twice")):
+        if (kind == "exchange" and after == "stop") or (init == "missing_header" and not h):
+            continue
+        st = lambda logs: {"logs": logs, "emit": {"rows": 1, "meta": None}, "finish": False, "raise": None}  # noqa: E731
+        x = ["EXCEPTION", "x", {}]
+        prog = {"init_logs": [["INFO", "i", {}]] + ([x] if exc == "init" else []), "init": "ok", "header": 5,
+                "steps": [st([["INFO", "a", {}]] + ([x] if exc == "step" else []) + ([x, x] if exc == "step_twice" else []) + [["WARN", "b", {}]]), st([])]
+                + ([{"logs": [], "emit": None, "finish": False, "raise": ["ValueError", "boom"]}] if kind == "producer" else [])}
+        if init == "raise":
+            prog["init"] = {"raise": ["ValueError", "boom"]}
+        elif init == "bad_return":
+            prog["init"] = "bad_return"
+        elif init == "missing_header":
+            prog["header"] = None
+        out.append(mk_call(kind, prog, h, k, after, mode=mode, label="arm"))
+    for logs in ([], [["INFO", "l", {}]], [["EXCEPTION", "x", {}], ["INFO", "l", {}]], [["INFO", "l", {}], ["EXCEPTION", "x", {}]]):
+        for res in ({"ok": 5}, {"raise": ["KeyError", "k"]}):
+            for mode in ("record", "raise"):
+                out.append(mk_call("unary", {"logs": logs, "result": res}, False, 0, "", mode=mode, label="arm"))
+    if thorough:
+        return out
+    fixed = out[-16:]
+    return rng.sample(out[:-16], 140) + fixed
+
+
 # --------------------------------------------------------------------------- scripts, Coq rendering
 def script_of(c: dict[str, Any], pid: int) -> list[Any]:
     if c["kind"] == "unary":
@@ -321,19 +354,23 @@ def culprit(calls: list[dict[str, Any]], i: int) -> dict[str, Any] | None:
     return None
 
 
-def key_for(c: dict[str, Any] | None) -> str:
+def key_for(c: dict[str, Any] | None, fv: dict[str, Any] | None = None) -> str:
+    """Finding class of a culprit call; ``fv`` = what the call does alone on a fresh connection (real code)."""
     if c is None:
         return "connection-unusable-after-ordinary-calls"
     lab = c["label"]
-    if lab == "bad_return":
-        return KEY_BAD_RETURN
-    if lab == "missing_header":
-        return KEY_MISSING_HEADER
+    srv_dead = fv is not None and (fv["state"]["srv"].startswith("dead") or fv["state"]["srv"] == "returned")
+    headerless_stream = c["kind"] != "unary" and not c["h"]
+    if lab in ("bad_return", "missing_header"):
+        if srv_dead and fv is not None and fv["state"]["srv"].startswith("dead"):
+            return KEY_BAD_RETURN if lab == "bad_return" else KEY_MISSING_HEADER
+        # the (repaired) server answered the fault like an init error
+        return KEY_HEADERLESS if headerless_stream else "connection-unusable-after:" + lab
     if lab == "cb_raise_unary":
         return KEY_CB_UNARY
     if lab == "cb_raise_stream":
         return KEY_CB_STREAM
-    if lab in ("init_error", "unknown_method", "version_rejection", "param_rejection") and c["kind"] != "unary" and not c["h"]:
+    if lab in ("init_error", "unknown_method", "version_rejection", "param_rejection") and headerless_stream:
         return KEY_HEADERLESS
     if lab == "exc_log" and c["kind"] != "unary":
         return KEY_EXC_LOG
@@ -375,14 +412,20 @@ def translate(ctx: Any) -> None:
 
 def run(ctx: Any) -> None:
     translate(ctx)
+    # the theorems do not depend on the source; the tie does -- built separately so that a tie broken by the source
+    # under test leaves the theorem obligations standing
     ctx.prove(
-        ["gen/G_WireConn.vo", "prop/P_C04.vo", "refuted/R_C04.vo", "tie/T_WireConn.vo", "tie/T_Wire.vo"],
+        ["prop/P_C04.vo", "refuted/R_C04.vo", "tie/T_Wire.vo"],
         {
             "P_C04": ["C04_obs_is_run_pipe", "C04_clean_after", "C04_unary_clean_whatever_the_callback", "C04_history_correct", "C04_next_call_correct",
                       "C04_next_call_reference", "C04_no_stuck"],
-            "T_WireConn": ["variant_tie", "unary_handlers_tie", "C04_clean_after_src", "C04_next_call_correct_src", "C04_no_stuck_src", "C04_no_uncaught_fault_src", "C04_unary_clean_src", "C04_faults_covered_src"],
             "T_Wire": ["wire_handlers_tie"],
         },
+    )
+    ctx.prove(
+        ["gen/G_WireConn.vo", "tie/T_WireConn.vo"],
+        {"T_WireConn": ["variant_tie", "unary_handlers_tie", "C04_clean_after_src", "C04_next_call_correct_src", "C04_no_stuck_src", "C04_no_uncaught_fault_src",
+                        "C04_unary_clean_src", "C04_faults_covered_src"]},
     )
     thorough = ctx.tier == "thorough"
     rng = ctx.rng
@@ -394,7 +437,7 @@ def run(ctx: Any) -> None:
                 "distinct by (calls); non-trivial = contains a failure call followed by at least one more call")
 
     # ---------------------------------------------------------------- histories
-    n_hist = 700 if thorough else 110
+    n_hist = 700 if thorough else 80
     hists: list[list[dict[str, Any]]] = []
     for label in FAULTS:                      # every failure kind at every position of a short history
         for pos in range(3):
@@ -440,7 +483,7 @@ def run(ctx: Any) -> None:
             if cu is not None and cu["label"] == "abandon" and is_open_abandon(cu, real.fresh_view(cu)):
                 verdict = "desync after an abandoned OPEN session (not an ended call)"
                 break
-            verdict = key_for(cu)
+            verdict = key_for(cu, real.fresh_view(cu) if cu is not None else None)
             n_desync_seen += 1
             ctx.violation(verdict, "a call on a shared connection did not receive its own response (or blocked)",
                           {"transport": "pipe (unix and tcp identical)", "calls": [{k: c[k] for k in ("via", "kind", "prog", "h", "k", "after", "mode", "label")} for c in calls],
@@ -464,6 +507,10 @@ def run(ctx: Any) -> None:
     for calls in hists:
         for c in calls:
             singles[json.dumps([c["via"], c["kind"], c["prog"], c["h"], c["k"], c["after"], c["mode"]], sort_keys=True)] = c
+    arms = arm_calls(rng, thorough)
+    for c in arms:
+        singles.setdefault(json.dumps([c["via"], c["kind"], c["prog"], c["h"], c["k"], c["after"], c["mode"]], sort_keys=True), c)
+    ctx.count("arm_scenarios", len(arms))
     view_cases: list[tuple[str, str]] = []
     view_calls: list[dict[str, Any]] = []
     for c in singles.values():
@@ -480,22 +527,26 @@ def run(ctx: Any) -> None:
                 ctx.violation("socket-transports-differ:state", "connection state after one call differs between pipe and " + kind, {"call": c, "pipe": a, kind: b})
     ctx.log(f"single-call views: {len(view_cases)}; total real calls {real.runs} in {time.time() - t0:.1f}s")
 
-    ok1, bad1, log1 = ctx.coq_mismatches(HEADER, "cv", "view_eqb", view_cases, "prog * script", "view_t", shard=80)
+    wb_cases = [(a, "true") for a, _ in view_cases]
+    (ok1, bad1, log1), (ok2, bad2, log2), (ok3, notwb, log3) = coq_batch(ctx, [
+        ("cv", "view_eqb", view_cases, "prog * script", "view_t", 110 if not thorough else 150),
+        ("rs", "seq_match", seq_cases, "list (prog * script)", "list outcome", 30),
+        ("wb", "Bool.eqb", wb_cases, "prog * script", "bool", 250),
+    ])
     ctx.obligation("correspondence:M_WireConn.call_view", "correspondence", ok1 and not bad1, log1 if not ok1 else f"{len(bad1)} of {len(view_cases)} single calls disagree (trace or connection state)")
     for i in bad1[:3]:
         shown = ctx.coq_show(HEADER, f"cv {view_cases[i][0]}")
         ctx.violation("model-impl-disagree:call_view", "implementation and model disagree on a single call (trace / state after)",
                       {"call": view_calls[i], "impl": view_cases[i][1][:2500], "model": shown[-1800:]})
-    ok2, bad2, log2 = ctx.coq_mismatches(HEADER, "rs", "seq_match", seq_cases, "list (prog * script)", "list outcome", shard=25)
     ctx.obligation("correspondence:M_WireConn.run_seq", "correspondence", ok2 and not bad2, log2 if not ok2 else f"{len(bad2)} of {len(seq_cases)} histories disagree")
     for i in bad2[:3]:
         shown = ctx.coq_show(HEADER, f"rs {seq_cases[i][0]}")
         ctx.violation("model-impl-disagree:run_seq", "implementation and model disagree on a history", {"calls": hists[i], "impl": seq_cases[i][1][:2500], "model": shown[-1800:]})
     # the proven class on the implementation: wellbehaved (evaluated in Coq) => the REAL connection is clean afterwards
-    ok3, notwb, log3 = ctx.coq_mismatches(HEADER, "wb", "Bool.eqb", [(a, "true") for a, _ in view_cases], "prog * script", "bool", shard=200)
     inside = 0
+    notwb_set = set(notwb)
     for i, c in enumerate(view_calls):
-        if i in set(notwb):
+        if i in notwb_set:
             continue
         inside += 1
         fv = real.fresh_view(c)
@@ -533,6 +584,31 @@ def run(ctx: Any) -> None:
         "+ FIONREAD (both sides in a read on an empty descriptor, no context switch between two samples), wall clock only as fallback",
         "Desync (a call on a connection that is not clean) is unspecified in the model: such calls are not compared, only flagged by the oracle",
     ]
+
+
+def coq_batch(ctx: Any, jobs: list[tuple[str, str, list[tuple[str, str]], str, str, int]]) -> list[tuple[bool, list[int], str]]:
+    """ctx.coq_mismatches for several (run, eqb, cases) at once: all shards of all jobs compile in ONE parallel wave."""
+    import re
+
+    from vlib.core import coqc_many
+
+    texts, owner = [], []
+    for j, (run_fn, eqb, cases, in_ty, out_ty, shard) in enumerate(jobs):
+        for off in range(0, len(cases), shard):
+            items = ";\n".join(f"({a}, {b})" for a, b in cases[off : off + shard])
+            texts.append("Set Printing Width 1000000.\nSet Printing Depth 1000000.\n" + HEADER
+                         + f"\nDefinition cs : list (({in_ty}) * ({out_ty})) := [\n{items}\n].\nEval vm_compute in (mismatches ({eqb}) ({run_fn}) cs).\n")
+            owner.append((j, off))
+    res = coqc_many(ctx.bdir, texts, timeout=900)
+    out: list[tuple[bool, list[int], str]] = [(True, [], "") for _ in jobs]
+    for (ok, txt), (j, off) in zip(res, owner):
+        okj, bad, log = out[j]
+        m = re.search(r"=\s*\[(.*?)\]\s*:\s*list nat", txt, flags=re.S)
+        if not ok or m is None:
+            out[j] = (False, bad, log + txt[-1200:])
+            continue
+        out[j] = (okj, bad + [off + int(x) for x in re.findall(r"\d+", m.group(1))], log)
+    return out
 
 
 def _ct(tr: list[list[Any]]) -> str:
